@@ -6,7 +6,7 @@ def vclass(v):
     return (v["prop"], v["tag"], v["pattern"].split(":")[0], v["op"])
 
 
-def shrink(execute, cfg, ops, target, budget=400):
+def shrink(execute, cfg, ops, target, budget=600, step=None):
     """execute(cfg, ops) -> list of violations.  Keeps a candidate only if a violation of the
     same class (property, invariant tag, pattern, operation kind) persists.
     Returns (cfg, ops, executions)."""
@@ -23,9 +23,11 @@ def shrink(execute, cfg, ops, target, budget=400):
         return any(vclass(v) == target for v in vs)
 
     # 1. truncate after the violating step
+    cur = list(ops)
+    if step is not None and step + 1 < len(cur) and fails(cfg, cur[: step + 1]):
+        cur = cur[: step + 1]
     # 2. ddmin over operations
     n = 2
-    cur = list(ops)
     while len(cur) >= 2 and runs[0] < budget:
         chunk = max(1, len(cur) // n)
         reduced = False
@@ -42,12 +44,15 @@ def shrink(execute, cfg, ops, target, budget=400):
             n = min(len(cur), n * 2)
     # 3. simplify arguments
     for i in range(len(cur)):
-        op = cur[i]
-        for simp in _simplifications(op):
-            cand = cur[:i] + [simp] + cur[i + 1:]
-            if fails(cfg, cand):
-                cur = cand
-                op = simp
+        progress = True
+        while progress and runs[0] < budget:
+            progress = False
+            for simp in _simplifications(cur[i]):  # always derived from the current form of the op
+                cand = cur[:i] + [simp] + cur[i + 1:]
+                if fails(cfg, cand):
+                    cur = cand
+                    progress = True
+                    break
     # 4. default knobs
     c = dict(cfg)
     for k, v in (("buf", 8192), ("short_read", False), ("short_write", False), ("tz", "UTC"),
